@@ -84,24 +84,28 @@ mutual
     | .node k p kind tip children =>
       detailsDoc c top name path (.node k p kind tip children)
         (complexDoc kind (contentCss c top name (.node k p kind tip children))
-          (match children with
-           | [] => [el c!"span" [] [c!"empty-container"] [] []]
-           | _ :: _ =>
-             if kind.isSeq || c.keyStyle == .label then
-               [el c!"table" [] [] [] (rowsDoc c path children)]
-             else summaryChildrenDoc c path children))
-  def summaryChildrenDoc (c : Ctx) (path : List Key) : List Tree → List HNode
+          (if anyChild (childShown c) path children then
+             summaryChildrenDoc c kind.isSeq path children
+             ++ (if anyChild (fun q => childShown c q && childLabel c kind.isSeq q) path children then
+                   [el c!"table" [] [] [] (rowsDoc c kind.isSeq path children)]
+                 else [])
+           else [el c!"span" [] [c!"empty-container"] [] []]))
+  def summaryChildrenDoc (c : Ctx) (seq : Bool) (path : List Key) : List Tree → List HNode
     | [] => []
     | t :: ts =>
-      wrapDoc c (path ++ [t.key])
-        (renderDoc (childCtx c) {} (some t.key.summaryName) (path ++ [t.key]) t)
-      :: summaryChildrenDoc c path ts
-  def rowsDoc (c : Ctx) (path : List Key) : List Tree → List HNode
+      (if childShown c (path ++ [t.key]) && !childLabel c seq (path ++ [t.key]) then
+         [wrapDoc c (path ++ [t.key])
+           (renderDoc (childCtx c) {} (some t.key.summaryName) (path ++ [t.key]) t)]
+       else [])
+      ++ summaryChildrenDoc c seq path ts
+  def rowsDoc (c : Ctx) (seq : Bool) (path : List Key) : List Tree → List HNode
     | [] => []
     | t :: ts =>
-      rowDoc (objectKeyDoc (childCtx c) t)
-        (wrapDoc c (path ++ [t.key]) (renderDoc (childCtx c) {} none (path ++ [t.key]) t))
-      :: rowsDoc c path ts
+      (if childShown c (path ++ [t.key]) && childLabel c seq (path ++ [t.key]) then
+         [rowDoc (objectKeyDoc (childCtx c) t)
+           (wrapDoc c (path ++ [t.key]) (renderDoc (childCtx c) {} none (path ++ [t.key]) t))]
+       else [])
+      ++ rowsDoc c seq path ts
 end
 
 /-! ### render = print ∘ renderDoc -/
@@ -217,40 +221,41 @@ mutual
       simp only [render, renderDoc]
       apply detailsEl_print st hst
       apply complexEl_print
-      cases children with
-      | nil =>
-        show emptySpan = printNodes [el c!"span" [] [c!"empty-container"] [] []]
-        simp only [emptySpan, printNodes, List.append_nil]
-        exact element_print _ _ _ _ _ _ rfl
-      | cons t ts =>
-        show (if (kind.isSeq || c.keyStyle == KeyStyle.label) = true then
-            c!"<table>" ++ rows st c path (t :: ts) ++ c!"</table>"
-          else summaryChildren st c path (t :: ts)) =
-          printNodes (if (kind.isSeq || c.keyStyle == KeyStyle.label) = true then
-            [el c!"table" [] [] [] (rowsDoc c path (t :: ts))]
-          else summaryChildrenDoc c path (t :: ts))
+      split
+      · rw [printNodes_append, summaryChildren_print c kind.isSeq path children]
+        congr 1
         split
-        · have := rows_print c path (t :: ts)
+        · have := rows_print c kind.isSeq path children
           simp [printNodes, printNode, el, elementAttrs, openTag, closeTag, attrsStr, this, optAttr, joinSp,
             dedup, styleStr, propAttrs]
-        · exact summaryChildren_print c path (t :: ts)
-  theorem summaryChildren_print (c : Ctx) (path : List Key) (ts : List Tree) :
-      summaryChildren st c path ts = printNodes (summaryChildrenDoc c path ts) := by
+        · rfl
+      · simp only [emptySpan, printNodes, List.append_nil]
+        exact element_print _ _ _ _ _ _ rfl
+  theorem summaryChildren_print (c : Ctx) (seq : Bool) (path : List Key) (ts : List Tree) :
+      summaryChildren st c seq path ts = printNodes (summaryChildrenDoc c seq path ts) := by
     cases ts with
     | nil => rfl
     | cons t ts =>
-      simp only [summaryChildren, summaryChildrenDoc, printNodes]
-      rw [summaryChildren_print c path ts,
-        wrapHL_print c _ _ _ (render_print (childCtx c) {} _ _ t)]
-  theorem rows_print (c : Ctx) (path : List Key) (ts : List Tree) :
-      rows st c path ts = printNodes (rowsDoc c path ts) := by
+      simp only [summaryChildren, summaryChildrenDoc, printNodes_append]
+      rw [summaryChildren_print c seq path ts]
+      congr 1
+      split
+      · simp only [printNodes, List.append_nil]
+        exact wrapHL_print c _ _ _ (render_print (childCtx c) {} _ _ t)
+      · rfl
+  theorem rows_print (c : Ctx) (seq : Bool) (path : List Key) (ts : List Tree) :
+      rows st c seq path ts = printNodes (rowsDoc c seq path ts) := by
     cases ts with
     | nil => rfl
     | cons t ts =>
-      simp only [rows, rowsDoc, printNodes]
-      rw [rows_print c path ts]
-      rw [rowEl_print _ _ _ _ (objectKeyEl_print st hst _ _)
-        (wrapHL_print c _ _ _ (render_print (childCtx c) {} none _ t))]
+      simp only [rows, rowsDoc, printNodes_append]
+      rw [rows_print c seq path ts]
+      congr 1
+      split
+      · simp only [printNodes, List.append_nil]
+        exact rowEl_print _ _ _ _ (objectKeyEl_print st hst _ _)
+          (wrapHL_print c _ _ _ (render_print (childCtx c) {} none _ t))
+      · rfl
 end
 
 end
@@ -511,9 +516,14 @@ def safeKind : NodeKind → Bool
   | .obj n css => noLt n && safeVal css
   | _ => true
 
+def safeLeafKind : LeafKind → Bool
+  | .num n css => noLt n && safeVal css
+  | .other n css => noLt n && safeVal css
+  | _ => true
+
 mutual
   def safeTree : Tree → Bool
-    | .leaf .. => true
+    | .leaf _ _ kind _ _ _ => safeLeafKind kind
     | .node _ _ kind _ children => safeKind kind && safeTrees children
   def safeTrees : List Tree → Bool
     | [] => true
@@ -525,12 +535,23 @@ theorem safeTrees_iff (ts : List Tree) : safeTrees ts = true ↔ ∀ t ∈ ts, s
   | nil => simp [safeTrees]
   | cons t ts ih => simp [safeTrees, ih]
 
-theorem leafKind_css_safe (k : LeafKind) : safeVal k.cssName = true := by cases k <;> decide
-theorem leafKind_title_noLt (k : LeafKind) : noLt k.title = true := by cases k <;> decide
+theorem leafKind_css_safe (k : LeafKind) (h : safeLeafKind k = true) : safeVal k.cssName = true := by
+  cases k with
+  | num n css => simp only [safeLeafKind, Bool.and_eq_true] at h; exact h.2
+  | other n css => simp only [safeLeafKind, Bool.and_eq_true] at h; exact h.2
+  | _ => decide
 
 theorem noLt_append (a b : Str) (ha : noLt a = true) (hb : noLt b = true) : noLt (a ++ b) = true := by
   simp only [noLt, List.all_append, Bool.and_eq_true] at *
   exact ⟨ha, hb⟩
+
+theorem leafKind_title_noLt (k : LeafKind) (h : safeLeafKind k = true) : noLt k.title = true := by
+  cases k with
+  | num n css => simp only [safeLeafKind, Bool.and_eq_true] at h; exact h.1
+  | other n css =>
+    simp only [safeLeafKind, Bool.and_eq_true] at h
+    exact noLt_append _ _ h.1 (by decide)
+  | _ => decide
 
 theorem nodeKind_css_safe (k : NodeKind) (h : safeKind k = true) : safeVal k.cssName = true := by
   cases k with
@@ -546,14 +567,14 @@ theorem nodeKind_title_noLt (k : NodeKind) (h : safeKind k = true) : noLt k.titl
 
 theorem tree_css_safe (t : Tree) (h : safeTree t = true) : safeVal t.cssName = true := by
   cases t with
-  | leaf k p kind repr raw tip => exact leafKind_css_safe kind
+  | leaf k p kind repr raw tip => exact leafKind_css_safe kind h
   | node k p kind tip ch =>
     simp only [safeTree, Bool.and_eq_true] at h
     exact nodeKind_css_safe kind h.1
 
 theorem tree_title_noLt (t : Tree) (h : safeTree t = true) : noLt t.title = true := by
   cases t with
-  | leaf k p kind repr raw tip => exact leafKind_title_noLt kind
+  | leaf k p kind repr raw tip => exact leafKind_title_noLt kind h
   | node k p kind tip ch =>
     simp only [safeTree, Bool.and_eq_true] at h
     exact nodeKind_title_noLt kind h.1
@@ -737,6 +758,31 @@ theorem okNodes_cons_of (n : HNode) (ns : List HNode) (hn : okNode n = true) (hn
   | text s => simp [isText] at hne
   | elem tag attrs cs => simp [okNodes, hn, hns, noAdjText]
 
+/-- No text node at the top level of the list. -/
+def noText : List HNode → Bool
+  | [] => true
+  | n :: ns => !isText n && noText ns
+
+theorem okNodes_append (a b : List HNode) (ha : okNodes a = true) (hb : okNodes b = true)
+    (hn : noText a = true) : okNodes (a ++ b) = true := by
+  induction a with
+  | nil => simpa using hb
+  | cons n a ih =>
+    simp only [noText, Bool.and_eq_true, Bool.not_eq_true'] at hn
+    simp only [okNodes, Bool.and_eq_true] at ha
+    cases n with
+    | text s => simp [isText] at hn
+    | elem tag attrs cs =>
+      simp only [List.cons_append, okNodes, ha.1.1, noAdjText, ih ha.2 hn.2, Bool.and_self]
+
+theorem noText_append (a b : List HNode) (ha : noText a = true) (hb : noText b = true) :
+    noText (a ++ b) = true := by
+  induction a with
+  | nil => simpa using hb
+  | cons n a ih =>
+    simp only [noText, Bool.and_eq_true] at ha
+    simp only [List.cons_append, noText, ha.1, ih ha.2, Bool.and_self]
+
 mutual
   theorem ok_renderDoc (c : Ctx) (top : Top) (name : Option Str) (path : List Key) (t : Tree)
       (ht : safeTree t = true) (htop : safeTop top = true) (hc : safeCtx c = true) :
@@ -752,43 +798,50 @@ mutual
       simp only [safeTree, Bool.and_eq_true] at ht'
       refine ok_detailsDoc c top name path _ _ ht htop
         (ok_complexDoc kind _ _ ht'.1 (contentCss_safe c top name _ htop) ?_) rfl
-      cases children with
-      | nil =>
-        show okNodes [el c!"span" [] [c!"empty-container"] [] []] = true
-        exact okNodes_singleton _ (okNode_el _ _ _ _ _ (by decide) (by decide) (by decide)
-          (mem_cons_css no_css (by decide)) rfl rfl)
-      | cons t ts =>
-        show okNodes (if (kind.isSeq || c.keyStyle == KeyStyle.label) = true then
-            [el c!"table" [] [] [] (rowsDoc c path (t :: ts))]
-          else summaryChildrenDoc c path (t :: ts)) = true
+      split
+      · have hs := ok_summaryChildrenDoc c kind.isSeq path children ht'.2 hc
+        refine okNodes_append _ _ hs.1 ?_ hs.2
         split
         · exact okNodes_singleton _ (okNode_el _ _ _ _ _ (by decide) (by decide) (by decide)
-            no_css rfl (ok_rowsDoc c path (t :: ts) ht'.2 hc))
-        · exact ok_summaryChildrenDoc c path (t :: ts) ht'.2 hc
-  theorem ok_summaryChildrenDoc (c : Ctx) (path : List Key) (ts : List Tree)
+            no_css rfl (ok_rowsDoc c kind.isSeq path children ht'.2 hc).1)
+        · rfl
+      · exact okNodes_singleton _ (okNode_el _ _ _ _ _ (by decide) (by decide) (by decide)
+          (mem_cons_css no_css (by decide)) rfl rfl)
+  theorem ok_summaryChildrenDoc (c : Ctx) (seq : Bool) (path : List Key) (ts : List Tree)
       (hts : safeTrees ts = true) (hc : safeCtx c = true) :
-      okNodes (summaryChildrenDoc c path ts) = true := by
+      okNodes (summaryChildrenDoc c seq path ts) = true ∧ noText (summaryChildrenDoc c seq path ts) = true := by
     cases ts with
-    | nil => rfl
+    | nil => exact ⟨rfl, rfl⟩
     | cons t ts =>
       simp only [safeTrees, Bool.and_eq_true] at hts
       simp only [summaryChildrenDoc]
-      have h := ok_renderDoc (childCtx c) {} (some t.key.summaryName) (path ++ [t.key]) t hts.1 rfl hc
-      have hw := ok_wrapDoc c (path ++ [t.key]) _ h.1 h.2
-      exact okNodes_cons_of _ _ hw.1 hw.2 (ok_summaryChildrenDoc c path ts hts.2 hc)
-  theorem ok_rowsDoc (c : Ctx) (path : List Key) (ts : List Tree)
-      (hts : safeTrees ts = true) (hc : safeCtx c = true) : okNodes (rowsDoc c path ts) = true := by
+      have hr := ok_summaryChildrenDoc c seq path ts hts.2 hc
+      split
+      · have h := ok_renderDoc (childCtx c) {} (some t.key.summaryName) (path ++ [t.key]) t hts.1 rfl hc
+        have hw := ok_wrapDoc c (path ++ [t.key]) _ h.1 h.2
+        have h1 : noText [wrapDoc c (path ++ [t.key])
+            (renderDoc (childCtx c) {} (some t.key.summaryName) (path ++ [t.key]) t)] = true := by
+          simp [noText, hw.2]
+        exact ⟨okNodes_append _ _ (okNodes_singleton _ hw.1) hr.1 h1, noText_append _ _ h1 hr.2⟩
+      · simpa using hr
+  theorem ok_rowsDoc (c : Ctx) (seq : Bool) (path : List Key) (ts : List Tree)
+      (hts : safeTrees ts = true) (hc : safeCtx c = true) :
+      okNodes (rowsDoc c seq path ts) = true ∧ noText (rowsDoc c seq path ts) = true := by
     cases ts with
-    | nil => rfl
+    | nil => exact ⟨rfl, rfl⟩
     | cons t ts =>
       simp only [safeTrees, Bool.and_eq_true] at hts
       simp only [rowsDoc]
-      have h := ok_renderDoc (childCtx c) {} none (path ++ [t.key]) t hts.1 rfl hc
-      have hw := ok_wrapDoc c (path ++ [t.key]) _ h.1 h.2
-      have hr := ok_rowDoc (objectKeyDoc (childCtx c) t) _ (ok_objectKeyDoc (childCtx c) t hc) hw.1
-      exact okNodes_cons_of _ _ hr rfl (ok_rowsDoc c path ts hts.2 hc)
+      have hr := ok_rowsDoc c seq path ts hts.2 hc
+      split
+      · have h := ok_renderDoc (childCtx c) {} none (path ++ [t.key]) t hts.1 rfl hc
+        have hw := ok_wrapDoc c (path ++ [t.key]) _ h.1 h.2
+        have hrow := ok_rowDoc (objectKeyDoc (childCtx c) t) _ (ok_objectKeyDoc (childCtx c) t hc) hw.1
+        have h1 : noText [rowDoc (objectKeyDoc (childCtx c) t)
+            (wrapDoc c (path ++ [t.key]) (renderDoc (childCtx c) {} none (path ++ [t.key]) t))] = true := rfl
+        exact ⟨okNodes_append _ _ (okNodes_singleton _ hrow) hr.1 h1, noText_append _ _ h1 hr.2⟩
+      · simpa using hr
 end
-
 
 /-! ### every leaf text and every shown key is a text node of the document -/
 
@@ -852,9 +905,34 @@ theorem key_mem_objectKeyDoc (c : Ctx) (t : Tree) (h : t.key.text ≠ []) :
   simp only [textsOfAll, texts_el, List.mem_append]
   exact Or.inl (mem_texts_txt _ (escape_ne_nil _ h))
 
+theorem leafTextsOfAll_none (c : Ctx) (path : List Key) (ts : List Tree)
+    (h : anyChild (childShown c) path ts = false) : leafTextsOfAll c path ts = [] := by
+  induction ts with
+  | nil => rfl
+  | cons t ts ih =>
+    simp only [anyChild, Bool.or_eq_false_iff] at h
+    simp [leafTextsOfAll, h.1, ih h.2]
+
+theorem keyTextsOfAll_none (b : Bool) (c : Ctx) (seq : Bool) (path : List Key) (ts : List Tree)
+    (h : anyChild (childShown c) path ts = false) : keyTextsOfAll b c seq path ts = [] := by
+  induction ts with
+  | nil => rfl
+  | cons t ts ih =>
+    simp only [anyChild, Bool.or_eq_false_iff] at h
+    simp [keyTextsOfAll, h.1, ih h.2]
+
+theorem rowsDoc_none (c : Ctx) (seq : Bool) (path : List Key) (ts : List Tree)
+    (h : anyChild (fun q => childShown c q && childLabel c seq q) path ts = false) :
+    rowsDoc c seq path ts = [] := by
+  induction ts with
+  | nil => rfl
+  | cons t ts ih =>
+    simp only [anyChild, Bool.or_eq_false_iff] at h
+    simp [rowsDoc, h.1, ih h.2]
+
 mutual
   theorem leafTexts_mem (c : Ctx) (top : Top) (name : Option Str) (path : List Key) (t : Tree) :
-      ∀ x ∈ leafTextsOf c t, x ≠ [] → escape x ∈ textsOf (renderDoc c top name path t) := by
+      ∀ x ∈ leafTextsOf c path t, x ≠ [] → escape x ∈ textsOf (renderDoc c top name path t) := by
     cases t with
     | leaf k p kind repr raw tip =>
       intro x hx hne
@@ -869,45 +947,52 @@ mutual
       apply mem_detailsDoc_of_content
       unfold complexDoc
       rw [texts_el]
-      cases children with
-      | nil => simp [leafTextsOfAll] at hx
-      | cons t ts =>
-        show escape x ∈ textsOfAll (if (kind.isSeq || c.keyStyle == KeyStyle.label) = true then
-            [el c!"table" [] [] [] (rowsDoc c path (t :: ts))]
-          else summaryChildrenDoc c path (t :: ts))
-        split
-        · simp only [textsOfAll, texts_el, List.append_nil]
-          exact leafTexts_mem_rows c path (t :: ts) x hx hne
-        · exact leafTexts_mem_summary c path (t :: ts) x hx hne
-  theorem leafTexts_mem_summary (c : Ctx) (path : List Key) (ts : List Tree) :
-      ∀ x ∈ leafTextsOfAll (childCtx c) ts, x ≠ [] →
-        escape x ∈ textsOfAll (summaryChildrenDoc c path ts) := by
+      have hany : anyChild (childShown c) path children = true := by
+        cases h : anyChild (childShown c) path children with
+        | true => rfl
+        | false => exact absurd hx (by rw [leafTextsOfAll_none c path children h]; simp)
+      simp only [hany, if_true, textsOfAll_append, List.mem_append]
+      rcases leafTexts_mem_children c kind.isSeq path children x hx hne with h | h
+      · exact Or.inl h
+      · right
+        have hl : anyChild (fun q => childShown c q && childLabel c kind.isSeq q) path children = true := by
+          cases hh : anyChild (fun q => childShown c q && childLabel c kind.isSeq q) path children with
+          | true => rfl
+          | false => rw [rowsDoc_none c kind.isSeq path children hh] at h; simp [textsOfAll] at h
+        simp only [hl, if_true, textsOfAll, texts_el, List.append_nil]
+        exact h
+  theorem leafTexts_mem_children (c : Ctx) (seq : Bool) (path : List Key) (ts : List Tree) :
+      ∀ x ∈ leafTextsOfAll c path ts, x ≠ [] →
+        escape x ∈ textsOfAll (summaryChildrenDoc c seq path ts)
+        ∨ escape x ∈ textsOfAll (rowsDoc c seq path ts) := by
     cases ts with
     | nil => intro x hx; simp [leafTextsOfAll] at hx
     | cons t ts =>
       intro x hx hne
       simp only [leafTextsOfAll, List.mem_append] at hx
-      simp only [summaryChildrenDoc, textsOfAll, List.mem_append]
+      simp only [summaryChildrenDoc, rowsDoc, textsOfAll_append, List.mem_append]
       rcases hx with hx | hx
-      · exact Or.inl (mem_wrapDoc _ _ _ _ (leafTexts_mem (childCtx c) {} _ _ t x hx hne))
-      · exact Or.inr (leafTexts_mem_summary c path ts x hx hne)
-  theorem leafTexts_mem_rows (c : Ctx) (path : List Key) (ts : List Tree) :
-      ∀ x ∈ leafTextsOfAll (childCtx c) ts, x ≠ [] →
-        escape x ∈ textsOfAll (rowsDoc c path ts) := by
-    cases ts with
-    | nil => intro x hx; simp [leafTextsOfAll] at hx
-    | cons t ts =>
-      intro x hx hne
-      simp only [leafTextsOfAll, List.mem_append] at hx
-      simp only [rowsDoc, textsOfAll, texts_rowDoc, List.mem_append]
-      rcases hx with hx | hx
-      · exact Or.inl (Or.inr (mem_wrapDoc _ _ _ _ (leafTexts_mem (childCtx c) {} _ _ t x hx hne)))
-      · exact Or.inr (leafTexts_mem_rows c path ts x hx hne)
+      · by_cases hs : childShown c (path ++ [t.key]) = true
+        · simp only [hs, if_true] at hx
+          by_cases hl : childLabel c seq (path ++ [t.key]) = true
+          · right; left
+            simp only [hs, hl, Bool.and_self, if_true, textsOfAll, texts_rowDoc, List.append_nil,
+              List.mem_append]
+            exact Or.inr (mem_wrapDoc _ _ _ _ (leafTexts_mem (childCtx c) {} _ _ t x hx hne))
+          · left; left
+            have hl' : childLabel c seq (path ++ [t.key]) = false := by simpa using hl
+            simp only [hs, hl', Bool.not_false, Bool.and_self, if_true, textsOfAll, List.append_nil]
+            exact mem_wrapDoc _ _ _ _ (leafTexts_mem (childCtx c) {} _ _ t x hx hne)
+        · have hs' : childShown c (path ++ [t.key]) = false := by simpa using hs
+          simp [hs'] at hx
+      · rcases leafTexts_mem_children c seq path ts x hx hne with h | h
+        · exact Or.inl (Or.inr h)
+        · exact Or.inr (Or.inr h)
 end
 
 mutual
   theorem keyTexts_mem (c : Ctx) (top : Top) (name : Option Str) (path : List Key) (t : Tree) :
-      ∀ x ∈ keyTextsOf true c t, x ≠ [] → escape x ∈ textsOf (renderDoc c top name path t) := by
+      ∀ x ∈ keyTextsOf true c path t, x ≠ [] → escape x ∈ textsOf (renderDoc c top name path t) := by
     cases t with
     | leaf k p kind repr raw tip => intro x hx; simp [keyTextsOf] at hx
     | node k p kind tip children =>
@@ -917,66 +1002,69 @@ mutual
       apply mem_detailsDoc_of_content
       unfold complexDoc
       rw [texts_el]
-      cases children with
-      | nil => simp [keyTextsOfAll] at hx
-      | cons t ts =>
-        show escape x ∈ textsOfAll (if (kind.isSeq || c.keyStyle == KeyStyle.label) = true then
-            [el c!"table" [] [] [] (rowsDoc c path (t :: ts))]
-          else summaryChildrenDoc c path (t :: ts))
-        split
-        · rename_i hl
-          rw [hl] at hx
-          simp only [textsOfAll, texts_el, List.append_nil]
-          exact keyTexts_mem_rows c path (t :: ts) x hx hne
-        · rename_i hl
-          have hl' : (kind.isSeq || c.keyStyle == KeyStyle.label) = false := by simpa using hl
-          rw [hl'] at hx
-          exact keyTexts_mem_summary c path (t :: ts) x hx hne
-  theorem keyTexts_mem_summary (c : Ctx) (path : List Key) (ts : List Tree) :
-      ∀ x ∈ keyTextsOfAll true c false ts, x ≠ [] →
-        escape x ∈ textsOfAll (summaryChildrenDoc c path ts) := by
+      have hany : anyChild (childShown c) path children = true := by
+        cases h : anyChild (childShown c) path children with
+        | true => rfl
+        | false => exact absurd hx (by rw [keyTextsOfAll_none true c kind.isSeq path children h]; simp)
+      simp only [hany, if_true, textsOfAll_append, List.mem_append]
+      rcases keyTexts_mem_children c kind.isSeq path children x hx hne with h | h
+      · exact Or.inl h
+      · right
+        have hl : anyChild (fun q => childShown c q && childLabel c kind.isSeq q) path children = true := by
+          cases hh : anyChild (fun q => childShown c q && childLabel c kind.isSeq q) path children with
+          | true => rfl
+          | false => rw [rowsDoc_none c kind.isSeq path children hh] at h; simp [textsOfAll] at h
+        simp only [hl, if_true, textsOfAll, texts_el, List.append_nil]
+        exact h
+  theorem keyTexts_mem_children (c : Ctx) (seq : Bool) (path : List Key) (ts : List Tree) :
+      ∀ x ∈ keyTextsOfAll true c seq path ts, x ≠ [] →
+        escape x ∈ textsOfAll (summaryChildrenDoc c seq path ts)
+        ∨ escape x ∈ textsOfAll (rowsDoc c seq path ts) := by
     cases ts with
     | nil => intro x hx; simp [keyTextsOfAll] at hx
     | cons t ts =>
       intro x hx hne
-      simp only [keyTextsOfAll, Bool.false_eq_true, if_false, Bool.not_true, Bool.false_or,
-        List.mem_append] at hx
-      simp only [summaryChildrenDoc, textsOfAll, List.mem_append]
-      rcases hx with (hx | hx) | hx
-      · left
-        split at hx
-        · rename_i hs
-          simp only [List.mem_singleton] at hx
-          subst hx
-          have hs' : hasSummary (childCtx c) {} (some t.key.summaryName) t = true := by
-            simpa [hasSummary] using hs
-          apply mem_wrapDoc
-          cases t with
-          | leaf k p kind repr raw tip =>
-            simp only [renderDoc]
-            exact name_mem_detailsDoc _ _ _ _ _ _ hs' hne
-          | node k p kind tip children =>
-            simp only [renderDoc]
-            exact name_mem_detailsDoc _ _ _ _ _ _ hs' hne
-        · cases hx
-      · exact Or.inl (mem_wrapDoc _ _ _ _ (keyTexts_mem (childCtx c) {} _ _ t x hx hne))
-      · exact Or.inr (keyTexts_mem_summary c path ts x hx hne)
-  theorem keyTexts_mem_rows (c : Ctx) (path : List Key) (ts : List Tree) :
-      ∀ x ∈ keyTextsOfAll true c true ts, x ≠ [] →
-        escape x ∈ textsOfAll (rowsDoc c path ts) := by
-    cases ts with
-    | nil => intro x hx; simp [keyTextsOfAll] at hx
-    | cons t ts =>
-      intro x hx hne
-      simp only [keyTextsOfAll, if_true, List.mem_append, List.mem_singleton] at hx
-      simp only [rowsDoc, textsOfAll, texts_rowDoc, List.mem_append]
-      rcases hx with (hx | hx) | hx
-      · subst hx
-        exact Or.inl (Or.inl (key_mem_objectKeyDoc _ t hne))
-      · exact Or.inl (Or.inr (mem_wrapDoc _ _ _ _ (keyTexts_mem (childCtx c) {} _ _ t x hx hne)))
-      · exact Or.inr (keyTexts_mem_rows c path ts x hx hne)
+      simp only [keyTextsOfAll, List.mem_append] at hx
+      simp only [summaryChildrenDoc, rowsDoc, textsOfAll_append, List.mem_append]
+      rcases hx with hx | hx
+      · by_cases hs : childShown c (path ++ [t.key]) = true
+        · simp only [hs, if_true, List.mem_append] at hx
+          by_cases hl : childLabel c seq (path ++ [t.key]) = true
+          · right; left
+            simp only [hs, hl, Bool.and_self, if_true, textsOfAll, texts_rowDoc, List.append_nil,
+              List.mem_append]
+            simp only [hl, if_true, List.mem_singleton] at hx
+            rcases hx with hx | hx
+            · subst hx
+              exact Or.inl (key_mem_objectKeyDoc _ t hne)
+            · exact Or.inr (mem_wrapDoc _ _ _ _ (keyTexts_mem (childCtx c) {} _ _ t x hx hne))
+          · left; left
+            have hl' : childLabel c seq (path ++ [t.key]) = false := by simpa using hl
+            simp only [hs, hl', Bool.not_false, Bool.and_self, if_true, textsOfAll, List.append_nil]
+            simp only [hl', Bool.false_eq_true, if_false, Bool.not_true, Bool.false_or] at hx
+            apply mem_wrapDoc
+            rcases hx with hx | hx
+            · split at hx
+              · rename_i hns
+                simp only [List.mem_singleton] at hx
+                subst hx
+                have hs' : hasSummary (childCtx c) {} (some t.key.summaryName) t = true := by
+                  simpa [hasSummary] using hns
+                cases t with
+                | leaf k p kind repr raw tip =>
+                  simp only [renderDoc]
+                  exact name_mem_detailsDoc _ _ _ _ _ _ hs' hne
+                | node k p kind tip children =>
+                  simp only [renderDoc]
+                  exact name_mem_detailsDoc _ _ _ _ _ _ hs' hne
+              · cases hx
+            · exact keyTexts_mem (childCtx c) {} _ _ t x hx hne
+        · have hs' : childShown c (path ++ [t.key]) = false := by simpa using hs
+          simp [hs'] at hx
+      · rcases keyTexts_mem_children c seq path ts x hx hne with h | h
+        · exact Or.inl (Or.inr h)
+        · exact Or.inr (Or.inr h)
 end
-
 
 theorem concatStrs_map_print (chs : List (List HNode)) :
     concatStrs (chs.map printNodes) = printNodes chs.flatten := by
